@@ -46,6 +46,10 @@ func c04Alphabet(full bool) []jr.Dir {
 		// an income/expense account has no tracked position: close must still close it
 		r := "Expenses:Rent"
 		a = append(a, jr.O(d1, r), jr.C(d1, r), jr.C(d2, r), jr.T(d2, "e", jr.B(food, r, "1", "CHF")))
+		// an accrual whose per-period share is zero for all periods but the first: the zero
+		// bookings on d2 and on the day after still need the expense account to be open
+		a = append(a, jr.Dir{Kind: jr.Trx, Date: d1, Desc: "accr", Books: []jr.Booking{jr.B(acc, r, "0.2", "CHF")},
+			Accrue: &jr.Accrual{Interval: "daily", Start: d1, End: "2020-02-01", Acc: food}})
 		l := "Liabilities:Card"
 		a = append(a, jr.O(d1, l), jr.T(d1, "l", jr.B(food, l, "1", "CHF")), jr.A(d2, jr.Bal{Acc: l, Qty: "1", Com: "CHF"}), jr.C(d2, l))
 		return a
@@ -54,6 +58,10 @@ func c04Alphabet(full bool) []jr.Dir {
 		r := "Expenses:Rent"
 		a = append(a, jr.O(d, r), jr.C(d, r), jr.T(d, "e", jr.B(food, r, "1", "CHF")))
 	}
+	a = append(a, jr.Dir{Kind: jr.Trx, Date: d1, Desc: "accr", Books: []jr.Booking{jr.B("Assets:Bank", "Expenses:Rent", "0.2", "CHF")},
+		Accrue: &jr.Accrual{Interval: "daily", Start: d1, End: "2020-02-01", Acc: food}},
+		jr.Dir{Kind: jr.Trx, Date: d1, Desc: "accr", Books: []jr.Booking{jr.B("Assets:Bank", "Expenses:Rent", "30", "CHF")},
+			Accrue: &jr.Accrual{Interval: "daily", Start: d1, End: "2020-02-01", Acc: "Liabilities:Card"}})
 	for _, acc := range []string{"Assets:Bank", "Liabilities:Card"} {
 		for _, d := range []string{d1, d2} {
 			a = append(a, jr.O(d, acc), jr.C(d, acc))
@@ -154,7 +162,12 @@ func c04One(drv *core.Driver, prefix, ds []jr.Dir, conform bool) (string, string
 				case jr.Open, jr.Close:
 					ok = ok && strings.Contains(out.Stderr, d.Date+" "+d.Kind.String()+" "+d.Acc)
 				case jr.Trx:
-					ok = ok && strings.Contains(out.Stderr, d.Date+" \""+d.Desc+"\"")
+					if d.Accrue != nil {
+						// the diagnostic shows the generated instalment ("<desc> (accrual i/n)", dated at its period end)
+						ok = strings.Contains(out.Stderr, " \""+d.Desc+" (accrual ") || strings.Contains(out.Stderr, d.Date+" \""+d.Desc+"\"")
+					} else {
+						ok = ok && strings.Contains(out.Stderr, d.Date+" \""+d.Desc+"\"")
+					}
 				case jr.Assert:
 					ok = ok && strings.Contains(out.Stderr, d.Date+" balance") && strings.Contains(out.Stderr, d.Bals[0].Acc)
 				}
